@@ -9,7 +9,9 @@ use std::collections::HashMap;
 pub struct OpaqueIpcMessage { pub ghost mid: int }           // message identity
 pub struct OpaqueIpcReceiver { pub ghost rid: int }          // receiver (channel) identity
 pub struct IpcReceiver<T> { pub ghost rid: int, pub phantom: PhantomData<T> }
-pub struct Decoded<T> { pub ghost of: int, pub phantom: PhantomData<T> }   // Result<T, bincode::Error> obtained by decoding message `of`
+pub type Decoded<T> = Result<T, BincodeError>;
+pub mod bincode { pub type Error = super::BincodeError; }
+pub uninterp spec fn decoded_of<T>(d: Decoded<T>) -> int;     // the message a decode result was obtained from
 pub enum IpcSelectionResult { MessageReceived(u64, OpaqueIpcMessage), ChannelClosed(u64) }
 pub struct IpcReceiverSet { pub _p: () }
 #[derive(Debug)] pub struct IoError { pub _p: () }
@@ -178,12 +180,12 @@ pub open spec fn inner_view(p: Poll<Option<OpaqueIpcMessage>>) -> Yield {
     match p { Poll::Pending => Yield::Pending, Poll::Ready(None) => Yield::End, Poll::Ready(Some(m)) => Yield::Msg(m.mid) }
 }
 pub open spec fn stream_view<T>(p: Poll<Option<Decoded<T>>>) -> Yield {
-    match p { Poll::Pending => Yield::Pending, Poll::Ready(None) => Yield::End, Poll::Ready(Some(d)) => Yield::Msg(d.of) }
+    match p { Poll::Pending => Yield::Pending, Poll::Ready(None) => Yield::End, Poll::Ready(Some(d)) => Yield::Msg(decoded_of(d)) }
 }
 impl OpaqueIpcMessage {
     // OpaqueIpcMessage::to (unit U7): decode this message
     #[verifier::external_body]
-    pub fn to<T>(self) -> (r: Decoded<T>) ensures r.of == self.mid { unimplemented!() }
+    pub fn to<T>(self) -> (r: Decoded<T>) ensures decoded_of(r) == self.mid { unimplemented!() }
 }
 impl<T> IpcReceiver<T> {
     // IpcReceiver::to_opaque (unit U7): same OS receiver
